@@ -38,9 +38,23 @@ def num(v, sty="d"):
 PREC = {"+": 1, "-": 1, "*": 2, "/": 2, "%": 2}
 
 
+def bigval(e):
+    v = sum(d * 10000 ** i for i, d in enumerate(e["mag"]))
+    return -v if e.get("neg") else v
+
+
+def bignum(e):
+    v = bigval(e)
+    if e.get("sty", "h") == "d":
+        return str(v)
+    return ("-0x%x" % -v) if v < 0 else ("0x%x" % v)
+
+
 def expr_min(e, redundant=False, sp=""):
     """Render a tree with the parentheses the usual rules require (and, optionally, redundant ones)."""
     o = e["o"]
+    if o == "nb":
+        return bignum(e)
     if o == "n":
         return num(e["v"], e.get("sty", "d"))
     if o == "id":
@@ -63,6 +77,8 @@ def expr_min(e, redundant=False, sp=""):
 
 def expr(e):
     o = e["o"]
+    if o == "nb":
+        return bignum(e)
     if o == "n":
         return num(e["v"], e.get("sty", "d"))
     if o == "id":
@@ -146,6 +162,10 @@ def stmt(s):
         return s["nm"] + ":"
     if k == "equ":
         return s["nm"] + LAY["sep"] + "EQU" + LAY["sep"] + (s.get("text") or expr(s["e"]))
+    if k == "equb":
+        return s["nm"] + LAY["sep"] + "EQU" + LAY["sep"] + (s.get("text") or expr_min(s["e"]))
+    if k == "datab":
+        return LAY["ind"] + s["mn"] + LAY["sep"] + (s.get("text") or expr_min(s["e"]))
     if k == "org":
         return LAY["ind"] + "ORG" + LAY["sep"] + num(s["v"], s.get("sty", "h"))
     if k == "bits":
@@ -266,6 +286,10 @@ def norm_stmt(s):
         s["e"] = norm_expr(s["e"])
     if k == "data":
         s["items"] = [({"t": "s", "b": it["b"]} if it["t"] == "s" else {"t": "e", "e": norm_expr(it["e"])}) for it in s["items"]]
+    if k == "equb":
+        s = {"k": "equb", "nm": s["nm"], "e": norm_expr(s["e"])}
+    if k == "datab":
+        s = {"k": "datab", "mn": s["mn"], "e": norm_expr(s["e"]), "defs": {n: norm_expr(x) for n, x in s.get("defs", {}).items()}}
     if k == "raw":
         s = {"k": "raw", "mn": s["mn"], "emits": bool(s.get("emits", True))}
     if k == "far":
